@@ -122,12 +122,12 @@ def run_cases(name, part, workdir, binary=None):
 
 
 def run_config(pid, name, consts, invariants, actprops, workdir, obs_sample, replay=True, kind="managed", hcfg_extra=None,
-               threads=None):
+               threads=None, tla_spec="Spec"):
     """TLC on one configuration (+ tour + replay).  Returns a dict of measurements."""
     K = KINDS[kind]
     os.makedirs(workdir, exist_ok=True)
     cfg_path = os.path.join(workdir, name + ".cfg")
-    open(cfg_path, "w").write(configs.cfg_text(consts, invariants, actprops, base=K["base"]))
+    open(cfg_path, "w").write(configs.cfg_text(consts, invariants, actprops, base=K["base"], spec=tla_spec))
     spec = os.path.join(ROOT, "spec", K["spec"])
     dot = os.path.join(workdir, name + ".dot") if replay else None
     r = run_tlc(spec, cfg_path, workdir, dump_dot=dot)
@@ -288,9 +288,9 @@ def managed_check(pid, tier, seed):
         preds = opts.get("preds", spec["preds"])
         threads = 4 if kind in ("sync", "syncmgr", "redismgr", "pgmgr") else None
         log("[%s] config %s: TLC%s ..." % (pid, name, " + tour + replay" if replay else " (model checking only)"))
-        info = run_config(pid, name, consts, struct + opts.get("invariants", spec["invariants"]), opts.get("actprops", spec["actprops"]),
+        info = run_config(pid, name, consts, (struct if "invariants" not in opts else []) + opts.get("invariants", spec["invariants"]), opts.get("actprops", spec["actprops"]),
                           workdir, obs_sample=spec.get("obs_sample", {}).get(tier, 50), replay=replay, kind=kind,
-                          hcfg_extra=opts.get("hcfg"), threads=threads)
+                          hcfg_extra=opts.get("hcfg"), threads=threads, tla_spec=opts.get("spec", "Spec"))
         info["kind"] = kind
         infos.append(info)
         log("[%s]   %d distinct states, %d transitions, depth %d, %.1fs" % (pid, info["states"], info["transitions"], info["depth"], info["tlc_s"]))
